@@ -162,7 +162,14 @@ func createMethodMatcher(methods []string) (methodMatcher, error) {
 	methods = slicex.Subtract(methods, tbr)
 	tbr = slicex.Map[string, string](tbr, func(s string) string { return strings.TrimPrefix(s, "!") })
 
-	return slicex.Subtract(methods, tbr), nil
+	methods = slicex.Subtract(methods, tbr)
+	if len(methods) == 0 {
+		// an empty list would match any method
+		return nil, errorchain.NewWithMessage(heimdall.ErrConfiguration,
+			"methods list does not contain any method after the exclusions have been applied")
+	}
+
+	return methods, nil
 }
 
 // createHostMatcher creates the matchers for the given host expressions. The request host
